@@ -98,10 +98,20 @@ impl S3 for FileSystem {
 
         debug!(from = %src_path.display(), to = %dst_path.display(), "copy file");
 
+        // the copy takes over the user metadata and the checksums of the source, not those of an object it replaces
+        let same_object = src_path == dst_path;
+        if same_object.not() {
+            self.delete_object_side_files(&input.bucket, &input.key)?;
+        }
         let src_metadata_path = self.get_metadata_path(bucket, key, None)?;
-        if src_metadata_path.exists() {
+        if src_metadata_path.exists() && same_object.not() {
             let dst_metadata_path = self.get_metadata_path(&input.bucket, &input.key, None)?;
             let _ = try_!(fs::copy(src_metadata_path, dst_metadata_path).await);
+        }
+        let src_info_path = self.get_internal_info_path(bucket, key)?;
+        if src_info_path.exists() && same_object.not() {
+            let dst_info_path = self.get_internal_info_path(&input.bucket, &input.key)?;
+            let _ = try_!(fs::copy(src_info_path, dst_info_path).await);
         }
 
         let md5_sum = self.get_md5_sum(bucket, key).await?;
@@ -125,6 +135,7 @@ impl S3 for FileSystem {
         let path = self.get_bucket_path(&input.bucket)?;
         if path.exists() {
             try_!(fs::remove_dir_all(path).await);
+            self.delete_bucket_side_files(&input.bucket)?;
         } else {
             return Err(s3_error!(NoSuchBucket));
         }
@@ -146,6 +157,7 @@ impl S3 for FileSystem {
             }
         } else {
             try_!(fs::remove_file(&path).await);
+            self.delete_object_side_files(&input.bucket, &input.key)?;
         }
         let output = DeleteObjectOutput::default(); // TODO: handle other fields
         Ok(S3Response::new(output))
@@ -165,6 +177,7 @@ impl S3 for FileSystem {
         let mut deleted_objects: Vec<DeletedObject> = Vec::new();
         for (path, key) in objects {
             try_!(fs::remove_file(path).await);
+            self.delete_object_side_files(&input.bucket, &key)?;
 
             let deleted_object = DeletedObject {
                 key: Some(key),
@@ -510,6 +523,8 @@ impl S3 for FileSystem {
 
         debug!(path = %object_path.display(), ?size, %md5_sum, ?checksum, "write file");
 
+        // the side files of an object that is replaced must not survive it
+        self.delete_object_side_files(&bucket, &key)?;
         if let Some(ref metadata) = metadata {
             self.save_metadata(&bucket, &key, metadata, None).await?;
         }
@@ -739,6 +754,8 @@ impl S3 for FileSystem {
 
         self.delete_upload_id(&upload_id).await?;
 
+        // the object takes the user metadata given when the upload was created, not those of an object it replaces
+        self.delete_object_side_files(&bucket, &key)?;
         if let Ok(Some(metadata)) = self.load_metadata(&bucket, &key, Some(upload_id)).await {
             self.save_metadata(&bucket, &key, &metadata, None).await?;
             let _ = self.delete_metadata(&bucket, &key, Some(upload_id));
